@@ -1073,8 +1073,10 @@ impl Interp {
             self.w.stop = false;
             let step_start = self.w.steps.len();
             self.w.in_thunk = true;
+            let saved_depth = self.w.call_depth_user;
             self.w.call_depth_user = 0;
             let r = self.apply(&thunk, vec![]);
+            self.w.call_depth_user = saved_depth;
             self.w.in_thunk = false;
             let v = match r {
                 Ok(v) => v,
